@@ -38,20 +38,20 @@ static std::string show(const std::string &s) { return strf("[%zu]%s", s.size(),
 
 // occurrence table of one (haystack, needle, mode): bit i set iff the needle occurs at i (naive scan)
 struct Occ {
-    uint64_t mask = 0;
+    std::vector<bool> at;  // (a 64-bit mask until the long-needle stage brought haystacks of more than 64 bytes)
     size_t n = 0, m = 0;
     Occ() {}
-    Occ(const std::string &hay, const std::string &needle, bool ci) : n(hay.size()), m(needle.size())
+    Occ(const std::string &hay, const std::string &needle, bool ci) : at(hay.size(), false), n(hay.size()), m(needle.size())
     {
         if (m == 0) return;
         for (size_t i = 0; i < n; ++i)
-            if (ref::occurs_at(hay, needle, i, ci)) mask |= uint64_t(1) << i;
+            if (ref::occurs_at(hay, needle, i, ci)) at[i] = true;
     }
     long first(size_t start) const
     {
         if (m == 0 || start >= n) return -1;
         for (size_t i = start; i < n; ++i)
-            if (mask >> i & 1) return (long)i;
+            if (at[i]) return (long)i;
         return -1;
     }
     long last(size_t limit) const
@@ -59,7 +59,7 @@ struct Occ {
         if (m == 0) return -1;
         size_t end = limit < n ? limit : n;
         for (size_t i = n; i-- > 0;)
-            if ((mask >> i & 1) && m <= end && i <= end - m) return (long)i;
+            if (at[i] && m <= end && i <= end - m) return (long)i;
         return -1;
     }
 };
@@ -141,7 +141,7 @@ static void check_case(Ctx &c, const Hay &H, const Needle &N, const Cfg &cfg)
             const ST::case_sensitivity_t cs = ci ? ST::case_insensitive : ST::case_sensitive;
             const char *mode = ci ? "ci" : "cs";
             Occ occ(H.raw, N.raw, ci != 0), occz = N.hasnul ? Occ(H.raw, N.cpre, ci != 0) : occ;
-            if (m) first_char_hit |= Occ(H.raw, N.raw.substr(0, 1), ci != 0).mask != 0;
+            if (m) first_char_hit |= Occ(H.raw, N.raw.substr(0, 1), ci != 0).first(0) >= 0;
 
             auto primary = [&](const char *opn, const char *tag, long got, long want, const std::string &eff, size_t at) {
                 c.fail(strf("%s(ptr,len):%s:%s:%s", opn, mode, rescls(want, got), tag),
@@ -488,8 +488,16 @@ static void build(vf::Plan &plan, const vf::Opts &o)
         st.case_timeout_s = 5;
     };
 
+    // VF_REDUCED: the ASan+UBSan build of the quick tier runs the stages whose operands live on the heap (what ASan adds is
+    // the detection of reads past a heap block, e.g. a window test made after the comparison it should guard)
+#ifdef VF_REDUCED
+    const bool reduced = true;
+#else
+    const bool reduced = false;
+#endif
     NPool n3 = needles(3);
-    if (!T) {
+    if (reduced) {
+    } else if (!T) {
         main_stage("main:H^<=5 x needles H^<=3", hays(5), n3, Cfg{EXT_FULL, true});
     } else {
         main_stage("main:H^<=5 x needles H^<=4", hays(5), needles(4), Cfg{EXT_FULL, true});
@@ -509,8 +517,57 @@ static void build(vf::Plan &plan, const vf::Opts &o)
                    T ? n3 : needles(2), Cfg{EXT_LIGHT, false});
     }
 
-    // ---- complete fold sweep
+    // ---- long needles: every length across the sizes a comparison loop might treat specially (8-byte words, 16/32/64-byte
+    // blocks, stack copies of the needle), one byte of the occurrence perturbed at every position - by the ASCII case bit
+    // (a match only for letters, in case-insensitive mode) and by +1 (never a match) - with every byte class at every position
     {
+        static const unsigned char ALPH[10] = {'a', 'B', '[', '1', '{', 0xC3, '_', 'Z', 'q', '@'};
+        std::vector<unsigned> lens;
+        if (T)
+            for (unsigned L = 1; L <= 80; ++L) lens.push_back(L);
+        else
+            lens = {7, 8, 9, 15, 16, 17, 24, 31, 32, 33, 40, 63, 64, 65, 72};
+        struct LN {
+            unsigned L, pos, rot, kind, ctx;
+        };
+        auto cases = std::make_shared<std::vector<LN>>();
+        for (unsigned L : lens)
+            for (unsigned pos = 0; pos < L; ++pos)
+                for (unsigned rot = 0; rot < 10; ++rot)
+                    for (unsigned kind = 0; kind < 3; ++kind)
+                        for (unsigned ctx = 0; ctx < 3; ++ctx) {
+                            if (kind == 2 && (pos != 0 || rot != 0)) continue;  // the unperturbed occurrence: once per length and context
+                            cases->push_back(LN{L, pos, rot, kind, ctx});
+                        }
+        auto mk = [](const LN &q, std::string &hay, std::string &needle) {
+            needle.clear();
+            for (unsigned j = 0; j < q.L; ++j) needle += (char)ALPH[(j + q.rot) % 10];
+            std::string occ = needle;
+            if (q.kind == 0) occ[q.pos] = (char)(occ[q.pos] ^ 0x20);
+            else if (q.kind == 1) occ[q.pos] = (char)(occ[q.pos] + 1);
+            // contexts: alone; behind two bytes and followed by a proper prefix of the needle that reaches the end of the
+            // haystack (a window test done too late reads past the end); followed by a true occurrence
+            hay = q.ctx == 0 ? occ : q.ctx == 1 ? "xy" + occ + needle.substr(0, q.L - 1) : occ + needle;
+        };
+        auto &st = plan.stage(strf("long needles: lengths %s, one byte of the occurrence flipped in bit 5 / incremented at every position, "
+                                   "10 byte classes, 3 contexts", T ? "1..80" : "{7,8,9,15,16,17,24,31,32,33,40,63,64,65,72}"),
+                              cases->size(),
+                              [cases, mk, EXT_LIGHT](uint64_t i, Ctx &c) {
+                                  std::string hay, needle;
+                                  mk((*cases)[i], hay, needle);
+                                  check_case(c, make_hay(hay), make_needle(needle), Cfg{EXT_LIGHT, false});
+                                  c.nontrivial();
+                              },
+                              [cases, mk](uint64_t i) {
+                                  std::string hay, needle;
+                                  mk((*cases)[i], hay, needle);
+                                  return strf("haystack %s needle %s", show(hay).c_str(), show(needle).c_str());
+                              });
+        st.case_timeout_s = 10;
+    }
+
+    // ---- complete fold sweep
+    if (!reduced) {
         plan.stage("fold:all-256x256(haystack byte, needle byte), alone and as second byte ('bQ'+x vs 'q'+y)", 65536 * 2,
                    [EXT_LIGHT](uint64_t i, Ctx &c) {
                        unsigned x = vf::take(i, 256), y = vf::take(i, 256), ctx = vf::take(i, 2);
